@@ -25,6 +25,7 @@ EXPLANATION = (
     "multiplicities from the same Counter without re-ordering either, store [even, odd] per term and per pair with "
     "even = agreement; (D7) all these queries leave the measurements and the operator untouched (effect analysis). "
     "(D2r) the value and covariance arrays are reported as computed (no clipping / snapping afterwards); (D4s) the signed counts are summed as integers and divided by the number of shots once, so a constant term contributes exactly its coefficient."
+    ' Round 4: the correlation matrix is sized by len() of the enumerated term sequence.'
 )
 RULE_TEXT = "instances = statements/expressions of Measurements.get_expectation_values, get_expectation_value_from_frequencies, check_parity_of_vector, get_counts/add_counts/get_distribution, get_parities_from_measurements; distinct by (rule, construct)"
 ASSUMPTIONS = [
